@@ -157,6 +157,8 @@ def tally(rep, case, impl_res, ans):
     spec = case['spec']
     rep.count('curated:%s' % (spec.get('spike_clusters') is not None and spec['spike_clusters'] != spec['spike_templates']))
     rep.count('shanks:%s' % (spec.get('channel_shanks') is not None))
+    if len(spec['templates']) > 256:
+        rep.count('more_than_256_templates, template ids stored as %s' % (spec.get('dtypes') or {}).get('spike_templates', 'uint32'))
     for name in sorted(spec.get('extra_npy') or {}):
         rep.count('near_miss_file_in_directory:' + name)
     if 'ok' in ans:
@@ -175,3 +177,27 @@ def gen(tier, rng):
         spec = DC.dense_spec(rng, curated=(i % 5 != 0), feats=False, empty=['none', 'last', 'random'][i % 3])
         sc = spec.get('spike_clusters') or spec['spike_templates']
         yield dict(p=PID, spec=spec, cs=sorted(set(sc))[:6], reopen=(i % 4 == 2))
+    # many templates and many curated ids, template ids stored in a narrow dtype the loader accepts (uint16 / int32):
+    # products such as template_id * n_clusters do not fit the narrow dtype
+    for i in range(2 if q else 12):
+        nt = rng.randrange(257, 300)
+        ns = nt + rng.randrange(50, 200)
+        spec = DC.dense_spec(rng, nt=nt, nc=rng.randrange(2, 5), ns=ns, nsw=2, curated=False, feats=False, empty='none',
+                             whiten=rng.pick(['none', 'diag']))
+        st = spec['spike_templates']
+        sc = list(st)
+        nxt = nt + rng.randrange(0, 60)
+        for _ in range(rng.randrange(20, 60)):        # merges of two clusters into new (high) ids, some splits
+            ids = sorted(set(sc))
+            a, b = rng.sample(ids, 2)
+            if rng.random() < .7:
+                sc = [nxt if c in (a, b) else c for c in sc]
+            else:
+                ia = [j for j, c in enumerate(sc) if c == a]
+                for j in ia[:max(1, len(ia) // 2)]:
+                    sc[j] = nxt
+            nxt += 1 + (rng.random() < .2)
+        spec['spike_clusters'] = sc
+        spec['dtypes'] = dict(spec.get('dtypes') or {}, spike_templates=['uint16', 'int32', 'uint16'][i % 3])
+        hi = sorted(set(sc))
+        yield dict(p=PID, spec=spec, cs=hi[:2] + hi[-4:], reopen=False)
